@@ -10,6 +10,8 @@ import Rare.Proofs.C01Trim
 import Rare.Proofs.C01Summary
 import Rare.Proofs.C01Flags
 import Rare.Proofs.C01Unbuffered
+import Rare.Proofs.C01Chunk
+import Rare.Proofs.C01Colour
 import Rare.Model.C01Source
 import Rare.Gen.C01
 /-!
@@ -449,6 +451,29 @@ example :
       ascii "Matched: \x1b[32;1m5\x1b[0m / \x1b[37;1m1,000\x1b[0m (Ignored: \x1b[31m2\x1b[0m)" := by
   decide +kernel
 
+/-- The colour codes are transparent: what a terminal displays of the coloured line (`color.Enabled`: every
+    `ESC … m` sequence is not shown) is byte for byte the uncoloured line – for all counters, with or without
+    separators, with the ignored / errors parts and any additional parts that carry no `ESC` themselves. -/
+theorem summary_colours_transparent (fmt : Bool) (m r i e : Nat) (parts : List Bytes)
+    (hp : ∀ p ∈ parts, (27 : UInt8) ∉ p) :
+    stripAnsi (extractorSummary fmt true m r i e parts) = extractorSummary fmt false m r i e parts ∧
+    stripAnsi (extractorSummary fmt false m r i e parts) = extractorSummary fmt false m r i e parts :=
+  ⟨stripAnsi_extractorSummary fmt m r i e parts hp, stripAnsi_extractorSummary_plain fmt m r i e parts hp⟩
+
+/-- `summary_shows_counters` without the restriction to `--nocolor`: the displayed line shows the three counters
+    whether colours are on or off. -/
+theorem summary_shows_counters_any_colour (fmt col : Bool) (m r i e : Nat) (hm : m < 2 ^ 64) (hr : r < 2 ^ 64)
+    (hi : i < 2 ^ 64) :
+    readSummary (stripAnsi (extractorSummary fmt col m r i e [])) = some (m, r, i) := by
+  have h := summary_colours_transparent fmt m r i e [] (by simp)
+  cases col
+  · rw [h.2]; exact summary_shows_counters fmt m r i e hm hr hi
+  · rw [h.1]; exact summary_shows_counters fmt m r i e hm hr hi
+
+/-- Non-vacuity: the coloured line of the example above is displayed as the plain one. -/
+example : stripAnsi (extractorSummary true true 5 1000 2 3 [ascii "(R: 1)"]) =
+    ascii "Matched: 5 / 1,000 (R: 1) (Ignored: 2) (Errors: 3)" := by decide +kernel
+
 /-- The summary printed after ANY complete run is the summary of the sequential evaluation: the line written from
     the three counters of a terminal state reads back as (matched, read, ignored) of `seqTotals`, and
     `read = matched + ignored + unmatched`.  The counters are uint64: fewer than 2^64 lines. -/
@@ -701,6 +726,112 @@ theorem cli_final_unbuffered (f : Flags) (input : Input) (cfg : PipeCfg) (hc : c
     obtain ⟨h1, h2, h3, h4, h5, _⟩ := pipeline_final_classified e cfg.R 1 cfg.K cfg.W cfg.batch hW datas timer hnp hr1 hd
     exact ⟨h1, h2, h3, h4, h5⟩
 
+/-! ## Read chunking, read errors and the exit code (C04's scanner in front of the pipeline)
+
+`Model/C01Chunk.lean`: a source is the byte stream behind an `io.Reader` that delivers it in chunks of any size, with
+stalls, and with `io.EOF` or another error at any position (C04's scripted reader), or a file that cannot be opened.
+`scannedInputs` = the batches the reader goroutines cut from what the REAL scanner configuration
+(`readahead.NewImmediate(reader, ReadAheadBufferSize)`, C04's model) hands them. -/
+
+/-- The property's "for every read chunking", with the seam to C04 closed: whatever the chunking / stall / fault
+    script of every source's reader, batch size, flush-timer behaviour, R/B/K/W and schedule, a terminal state
+    carries the sequential evaluation of the bytes the readers DELIVERED; those are a prefix of every stream, and
+    the whole stream when the source could be opened and no `Read` reported an error before the end – so then the
+    outcome does not depend on the chunking at all. -/
+theorem pipeline_final_chunked (cls : Line → Cls) (R B K W batchSize : Nat) (hW : 1 ≤ W)
+    (srcs : List SrcIn) (timer : Nat → Nat → Bool) {s : St Line}
+    (hr : Reach cls R B K (init (scannedInputs batchSize srcs timer) W) s) (hd : s.consDone = true) :
+    let delivered := srcs.map deliveredOf
+    s.consumed.Perm (seqMatches cls (allLines delivered)) ∧
+    (⟨s.nRead, s.nMatched, s.nIgnored⟩ : Totals) = seqTotals cls (allLines delivered) ∧
+    (∀ src ∈ srcs, deliveredOf src <+: src.data) ∧
+    ((∀ src ∈ srcs, src.opened = true ∧ ∀ st ∈ src.script, st.err = none) → delivered = srcs.map (·.data)) := by
+  intro delivered
+  rw [scannedInputs_eq] at hr
+  obtain ⟨h1, h2⟩ := pipeline_final_bytes cls R B K W batchSize hW delivered timer hr hd
+  refine ⟨h1, h2, fun src _ => deliveredOf_prefix src, fun h => ?_⟩
+  apply List.map_congr_left
+  intro src hs
+  exact deliveredOf_full src (h src hs).1 (h src hs).2
+
+/-- Non-vacuity and the interesting cases: a reader that delivers `a\nb\nc` in chunks of 1, 0, 2 bytes and then
+    fails (the bytes read so far are kept: lines `a`, `b`, one error); the same stream chunked without a fault (all
+    three lines, no error); a directory given as a file (first `Read` fails: no line, one error); a missing file. -/
+example :
+    (scanSrc ⟨true, ascii "a\nb\nc", [⟨1, none⟩, ⟨0, none⟩, ⟨2, none⟩, ⟨1, some .fail⟩]⟩).tokens = [ascii "a", ascii "b"] ∧
+    (scanSrc ⟨true, ascii "a\nb\nc", [⟨1, none⟩, ⟨0, none⟩, ⟨2, none⟩, ⟨1, some .fail⟩]⟩).errs = 1 ∧
+    (scanSrc ⟨true, ascii "a\nb\nc", [⟨1, none⟩, ⟨0, none⟩, ⟨2, none⟩]⟩).tokens = [ascii "a", ascii "b", ascii "c"] ∧
+    (scanSrc ⟨true, ascii "a\nb\nc", [⟨1, none⟩, ⟨0, none⟩, ⟨2, none⟩]⟩).errs = 0 ∧
+    (scanSrc ⟨true, [], [⟨0, some .fail⟩]⟩).tokens = [] ∧ (scanSrc ⟨true, [], [⟨0, some .fail⟩]⟩).errs = 1 ∧
+    (scanSrc ⟨false, ascii "zz", []⟩).tokens = [] ∧ (scanSrc ⟨false, ascii "zz", []⟩).errs = 1 := by
+  decide +kernel
+
+/-- `Batcher.ReadErrors()` after the run: at most one per source (the scanner's error callback fires at most once,
+    C04 `imm_error_once`; a failed open ends the goroutine), none when every file opens and no `Read` fails, at
+    least one as soon as one file cannot be opened. -/
+theorem read_errors_spec (srcs : List SrcIn) :
+    readErrors srcs ≤ srcs.length ∧
+    ((∀ src ∈ srcs, src.opened = true ∧ ∀ st ∈ src.script, st.err ≠ some .fail) → readErrors srcs = 0) ∧
+    ((∃ src ∈ srcs, src.opened = false) → 0 < readErrors srcs) := by
+  unfold readErrors
+  induction srcs with
+  | nil => simp
+  | cons a rest ih =>
+    obtain ⟨ih1, ih2, ih3⟩ := ih
+    have ha := srcErrs_le_one a
+    simp only [List.map_cons, List.sum_cons, List.length_cons, List.mem_cons, forall_eq_or_imp, exists_eq_or_imp]
+    refine ⟨by omega, ?_, ?_⟩
+    · rintro ⟨⟨ho, hs⟩, hr⟩
+      rw [srcErrs_zero a ho hs, ih2 hr]
+    · rintro (ho | hr)
+      · rw [srcErrs_closed a ho]; omega
+      · have := ih3 hr; omega
+
+/-- `DetermineErrorState` (the guard table it is interpreted from is the source's, `exit_and_read_path_match_source`):
+    read errors win (exit 2), then parse errors of the aggregator (exit 2; `none` = no aggregator, `rare filter`),
+    then "no line matched" (exit 1, empty message); otherwise `nil` (exit 0). -/
+theorem exit_code_spec (re : Nat) (pe : Option Nat) (m : Nat) :
+    determineErrorState re pe m =
+      if re > 0 then some ("Read errors", 2)
+      else if pe.getD 0 > 0 then some ("Parse errors", 2)
+      else if m = 0 then some ("", 1) else none := by
+  simp only [determineErrorState, exitGuards, runExitGuards, exitCond]
+  by_cases h1 : re > 0
+  · simp [h1, exitCodeOf]
+  · by_cases h3 : m = 0 <;> cases pe with
+    | none => simp [h1, h3, exitCodeOf]
+    | some p => by_cases h2 : p > 0 <;> simp [h1, h2, h3, exitCodeOf]
+
+/-- The exit code of `rare filter` after ANY complete run is a function of the inputs alone: 2 when some source had
+    a read / open error, else 1 when the sequential evaluation of the delivered bytes matches no line, else 0 – for
+    every chunking, batch size, timer behaviour, R/B/K/W and schedule (`s.nMatched` is the counter
+    `DetermineErrorState` reads). -/
+theorem cli_exit_code (e : Extractor) (R B K W batchSize : Nat) (hW : 1 ≤ W)
+    (srcs : List SrcIn) (timer : Nat → Nat → Bool) (hnp : NoPanic e (allLines (srcs.map deliveredOf))) {s : St Line}
+    (hr : Reach (clsOf e) R B K (init (scannedInputs batchSize srcs timer) W) s) (hd : s.consDone = true) :
+    let ms := (allLines (srcs.map deliveredOf)).filter (outcomeIs e .matched)
+    s.consumed.Perm ms ∧ s.nMatched = ms.length ∧
+    exitCode (readErrors srcs) none s.nMatched =
+      (if readErrors srcs > 0 then 2 else if ms = [] then 1 else 0) := by
+  intro ms
+  rw [scannedInputs_eq] at hr
+  obtain ⟨h1, _, _, h4, _, _⟩ := pipeline_final_classified e R B K W batchSize hW _ timer hnp hr hd
+  refine ⟨h1, h4, ?_⟩
+  simp only [exitCode, exit_code_spec, Option.getD_none]
+  rw [h4]
+  change (match (if readErrors srcs > 0 then some ("Read errors", (2:Int)) else if 0 > 0 then some ("Parse errors", 2)
+      else if ms.length = 0 then some ("", 1) else none) with | none => (0:Int) | some (_, c) => c) = if readErrors srcs > 0 then 2 else if ms = [] then 1 else 0
+  generalize ms = l
+  by_cases hre : readErrors srcs > 0
+  · simp [hre]
+  · cases l <;> simp [hre]
+
+/-- Boundary values of the exit code: errors beat everything, a parse error beats "no data", no aggregator. -/
+example :
+    determineErrorState 1 (some 5) 0 = some ("Read errors", 2) ∧ determineErrorState 0 (some 1) 7 = some ("Parse errors", 2) ∧
+    determineErrorState 0 (some 0) 0 = some ("", 1) ∧ determineErrorState 0 none 0 = some ("", 1) ∧
+    determineErrorState 0 none 1 = none ∧ exitCode 0 none 3 = 0 ∧ exitCode 2 none 3 = 2 := by decide
+
 /-! ## The source the models were written against (translator tie, `harness/extract/c01.go`) -/
 
 /-- Every statement (with its conditions, in source order) of the functions the classification, summary and
@@ -764,6 +895,20 @@ theorem summary_constants_from_source :
     Gen.C01.colorBrightWhite = cBrightWhite ∧ Gen.C01.colorRed = cRed ∧
     Gen.C01.baseSeparator = 44 ∧ Gen.C01.huiSmall = 100 ∧ Gen.C01.huiGroup = 3 := by
   refine ⟨rfl, rfl, ?_, ?_, ?_, ?_, rfl, rfl, rfl⟩ <;> decide +kernel
+
+/-- The exit-code guards `determineErrorState` interprets ARE the source's (condition, message, exit-code constant,
+    in order, `return nil` last); both batching loops read through `readahead.NewImmediate(newReaderMetrics(reader),
+    ReadAheadBufferSize)` – the scanner configuration C04's theorems are about – and count an error in the callback
+    (`s.incErrors()`); a file that cannot be opened is logged, counted (`out.incErrors()`) and skipped. -/
+theorem exit_and_read_path_match_source :
+    Gen.C01.exitGuards = exitGuards ∧
+    Gen.C01.stmts_determineErrorState = Source.stmts_determineErrorState ∧
+    Gen.C01.scanner_syncReaderToBatcher = Source.scanner_syncReaderToBatcher ∧
+    Gen.C01.scanner_syncReaderToBatcherWithTimeFlush = Source.scanner_syncReaderToBatcherWithTimeFlush ∧
+    Gen.C01.openError_openFilesToChan = Source.openError_openFilesToChan ∧
+    exitCodeOf "ExitCodeInvalidUsage" = Gen.C01.exitCodeInvalidUsage ∧
+    exitCodeOf "ExitCodeNoData" = Gen.C01.exitCodeNoData := by
+  refine ⟨rfl, rfl, rfl, rfl, rfl, rfl, rfl⟩
 
 /-! ## A consumer that stops early (`rare filter -n NUM`)
 
